@@ -130,9 +130,9 @@ ColSteps(m, st, s, p) == IF p > Len(m.steps[s]) THEN st                         
                          ELSE ColSteps(m, [st EXCEPT !.step = IncCounter(@, m.steps[s][p])], s, p + 1)
 ColScenario(m, st, s) ==                                     \* visit_scenario -> on_scenario, then the steps
    LET x == m.status[s]
-       \* on_scenario compares with Status.failed / Status.error only
+       \* on_scenario: status == Status.failed -> failed; elif status.is_error() -> errored  (repaired in /repo 1d0be2e)
        st1 == [st EXCEPT !.failed = IF x = "failed" THEN Append(@, s) ELSE @,
-                         !.errored = IF x = "error" THEN Append(@, s) ELSE @,
+                         !.errored = IF x # "failed" /\ x \in ErrorClass THEN Append(@, s) ELSE @,
                          !.scen = IncCounter(@, x)]
    IN ColSteps(m, st1, s, 1)
 RECURSIVE ColItems(_, _, _, _)
@@ -164,8 +164,9 @@ PartsFrom(t, opt, i) ==                                          \* the loop ove
 TotalOf(t) == IF t.sort = "enum" THEN SumAll(t.c)                \* StatusCounts.get("all")
               ELSE IF "all" \in DOMAIN t.c THEN t.c["all"]
               ELSE SumButAll(t.c)
-\* status_counts.get(Status.passed, 0): an enum key in a name-keyed dict is never found
-GetByEnumPassed(t) == IF t.sort = "enum" /\ "passed" \in DOMAIN t.c THEN t.c["passed"] ELSE 0
+\* status_counts.get(Status.passed.name, status_counts.get(Status.passed, 0)): the name finds the count in a name-keyed
+\* dict, the enum value in a StatusCounts (repaired in /repo 410d1d0; before, only the enum key was tried)
+GetPassed(t) == IF "passed" \in DOMAIN t.c THEN t.c["passed"] ELSE 0
 NoLine == [printed |-> FALSE, parts |-> <<>>, has_total |-> FALSE, total |-> 0]
 FormatLine(fmt, t) ==
    IF fmt = "v1" THEN                                            \* "N kind(s) passed, n name, ..."
@@ -174,7 +175,7 @@ FormatLine(fmt, t) ==
    ELSE LET ps == PartsFrom(t, OptV2, 1) IN
         IF fmt = "v1B" THEN                                      \* use_passed_for_all: "T kind(s) passed, n name, ..."
            [printed |-> TRUE,
-            parts |-> <<[name |-> "passed", n |-> GetByEnumPassed(t)]>> \o SelectSeq(ps, LAMBDA p : p.name # "passed"),
+            parts |-> <<[name |-> "passed", n |-> GetPassed(t)]>> \o SelectSeq(ps, LAMBDA p : p.name # "passed"),
             has_total |-> FALSE, total |-> 0]
         ELSE [printed |-> TRUE, parts |-> ps, has_total |-> TRUE, total |-> TotalOf(t)]   \* v1A v2 v3: "T kind(s) ... parts"
 
@@ -200,7 +201,10 @@ SpecCollector(st) ==
    [crashed |-> "", counts |-> <<st.feat, st.rule, st.scen, st.step>>, failing |-> st.failed, errored |-> st.errored]
 
 \* ================================================================ (P) the clauses
-\* a verdict is <<clause, impl, fmt, kind, family>>; family "none" unless the violation is exactly one known defect.
+\* a verdict is <<clause, impl, fmt, kind>>.  Judged are the end-of-run summary of the run itself (impl "live"), the
+\* summary reporter behave uses (SummaryReporter = SummaryReporterV1, impl "V1", every format) and the collector.
+\* SummaryReporterV2 (impl "V2") is a class nothing instantiates: it is recorded and compared with its transcription
+\* (divergence, informational) but it is not "the end-of-run summary" of the statement and never judged.
 \* For speed every printed line is folded once into a function status -> number over the domain D = statuses of the
 \* model + statuses the code knows + "?" (any other printed name; its census is 0); not printed = 0 (optional
 \* parts are suppressed when zero), so that most comparisons are one native function equality.
@@ -211,28 +215,23 @@ FoldParts(f, ps, i) == IF i > Len(ps) THEN f
                        ELSE LET nm == IF ps[i].name \in DOMAIN f THEN ps[i].name ELSE "?" IN
                             FoldParts([f EXCEPT ![nm] = @ + ps[i].n], ps, i + 1)
 LineOf(o, k) == o.lines[KIx(k)]
-Fam(b, f) == IF b THEN f ELSE "none"
-Differ(f, g) == {s \in DOMAIN f : f[s] # g[s]}
 
 \* C14.count -- each printed count = number of elements with that final status; nothing with census > 0 is left out
 \* C14.sum   -- the counts add up to the number of elements of the kind; so does a printed total
 \* C14.listed -- failing / errored lists = scenarios with failed / error-class status
 \* C14.no_crash
 RepClauses(m, C, P, o, lf) ==                       \* lf = [k |-> folded line of kind k]
-   IF o.crashed # "" THEN {<<"C14.no_crash", o.impl, o.fmt, "-",
-                             Fam(o.impl = "V2" /\ o.crashed = "AttributeError" /\ o.crash_at = "end", "reporter_v2")>>}
+   IF o.crashed # "" THEN {<<"C14.no_crash", o.impl, o.fmt, "-">>}
    ELSE LET failed == {s \in ScenSet(m) : m.status[s] = "failed"}
             errd == {s \in ScenSet(m) : m.status[s] \in ErrorClass}
-            \* the v1B defect and nothing else: the passed count is printed as 0
-            V1BZero(k) == /\ o.fmt = "v1B" /\ o.impl = "V1" /\ lf[k]["passed"] = 0 /\ Differ(lf[k], C[k]) = {"passed"}
         IN UNION {
-              (IF lf[k] # C[k] THEN {<<"C14.count", o.impl, o.fmt, k, Fam(V1BZero(k), "v1B_passed_zero")>>} ELSE {})
+              (IF lf[k] # C[k] THEN {<<"C14.count", o.impl, o.fmt, k>>} ELSE {})
               \cup
               (IF SumParts(LineOf(o, k).parts, 1) # P[k] \/ (LineOf(o, k).has_total /\ LineOf(o, k).total # P[k])
-               THEN {<<"C14.sum", o.impl, o.fmt, k, Fam(V1BZero(k), "v1B_passed_zero")>>} ELSE {})
+               THEN {<<"C14.sum", o.impl, o.fmt, k>>} ELSE {})
               : k \in KindSet}
            \cup (IF SeqSet(o.failing) # failed \/ SeqSet(o.errored) # errd
-                 THEN {<<"C14.listed", o.impl, o.fmt, "scenario", "none">>} ELSE {})
+                 THEN {<<"C14.listed", o.impl, o.fmt, "scenario">>} ELSE {})
 
 \* C14.formats -- all formats of one implementation print the same numbers (reference: the first one that did not
 \* crash; totals: the first one that prints a total)
@@ -244,28 +243,24 @@ FormatClauses(reps, lfs, impl) ==
             Differs(i, k) == \/ lfs[i][k] # lfs[ref][k]
                              \/ /\ LineOf(reps[i], k).has_total /\ LineOf(reps[withT[1]], k).has_total
                                 /\ LineOf(reps[i], k).total # LineOf(reps[withT[1]], k).total
-            \* exactly the v1B defect: differs from the reference in the passed count only, which it prints as 0
-            OnlyV1B(i, k) == /\ reps[i].fmt = "v1B" /\ impl = "V1" /\ lfs[i][k]["passed"] = 0
-                             /\ Differ(lfs[i][k], lfs[ref][k]) = {"passed"}
-        IN {<<"C14.formats", impl, reps[mine[x[1]]].fmt, x[2], Fam(OnlyV1B(mine[x[1]], x[2]), "v1B_passed_zero")>> :
+        IN {<<"C14.formats", impl, reps[mine[x[1]]].fmt, x[2]>> :
                x \in {y \in (2..Len(mine)) \X KindSet : Differs(mine[y[1]], y[2])}}
 
-\* C14.collector -- SummaryCollector.summary_counts = census (c.counts: one Seq([name, n]) per kind; c.totals)
+\* C14.collector -- SummaryCollector.summary_counts = census (c.counts: one Seq([name, n]) per kind; c.totals);
+\* the collector's failed / errored lists are judged by C14.listed
 CollectorClauses(m, C, P, Z, c) ==
-   IF c.crashed # "" THEN {<<"C14.no_crash", "collector", "-", "-", "none">>}
-   ELSE {<<"C14.collector", "collector", "-", k, "none">> :
+   IF c.crashed # "" THEN {<<"C14.no_crash", "collector", "-", "-">>}
+   ELSE {<<"C14.collector", "collector", "-", k>> :
             k \in {kk \in KindSet : FoldParts(Z, c.counts[KIx(kk)], 1) # C[kk] \/ c.totals[KIx(kk)] # P[kk]}}
         \cup (LET failed == {s \in ScenSet(m) : m.status[s] = "failed"}
                   errd == {s \in ScenSet(m) : m.status[s] \in ErrorClass}
-                  \* the collector's errored list compares with Status.error only
-                  onlyHook == /\ SeqSet(c.failing) = failed /\ SeqSet(c.errored) = {s \in errd : m.status[s] = "error"}
-                              /\ errd \ SeqSet(c.errored) # {}
               IN IF SeqSet(c.failing) # failed \/ SeqSet(c.errored) # errd
-                 THEN {<<"C14.listed", "collector", "-", "scenario", Fam(onlyHook, "collector_error_only")>>} ELSE {})
+                 THEN {<<"C14.listed", "collector", "-", "scenario">>} ELSE {})
 
 \* obs = [reps: Seq(observation), col: collector observation, live_ok: the run came to its end]
-\* the reporter of the real run (impl "live") is judged only if the run was not cut by an escaped exception
-Judged(obs) == SelectSeq(obs.reps, LAMBDA o : o.impl # "live" \/ obs.live_ok)
+\* the reporter of the real run (impl "live") is observed only if the run was not cut by an escaped exception
+Observed(obs) == SelectSeq(obs.reps, LAMBDA o : o.impl # "live" \/ obs.live_ok)
+Judged(obs) == SelectSeq(Observed(obs), LAMBDA o : o.impl # "V2")
 Clauses(m, obs) ==
    LET SU == StatusUniverse(m) \cup {"?"}
        Z == [s \in SU |-> 0]
@@ -275,7 +270,7 @@ Clauses(m, obs) ==
        lfs == [i \in DOMAIN reps |-> [k \in KindSet |-> IF reps[i].crashed # "" THEN Z
                                                          ELSE FoldParts(Z, LineOf(reps[i], k).parts, 1)]]
    IN UNION {RepClauses(m, C, P, reps[i], lfs[i]) : i \in DOMAIN reps}
-      \cup FormatClauses(reps, lfs, "V1") \cup FormatClauses(reps, lfs, "V2")
+      \cup FormatClauses(reps, lfs, "V1")
       \cup CollectorClauses(m, C, P, Z, obs.col)
 
 \* the collector observation in the row format (parts per kind, totals) from the automaton state
@@ -290,20 +285,8 @@ SpecObs(m) == LET v1 == V1Run(m)  col == ColRun(m) IN
               [reps |-> [i \in 1..10 |-> IF i <= 5 THEN SpecV1(v1, Formats[i]) ELSE SpecV2(col, Formats[i - 5])],
                col |-> SpecColObs(col), live_ok |-> FALSE]
 
-\* the named defect families of the code as it is (DESIGN §8 item 8 and what this check found); everything else is strict.
-\* When the code is repaired the transcription (S) has to follow in the same commit (and the exception goes away):
-\*  v1B_passed_zero      format_summary_with_schema(use_passed_for_all): status_counts.get(Status.passed, 0) on the
-\*                       name-keyed tables of SummaryReporterV1 is always 0.  Repair: look up Status.passed.name first;
-\*                       then GetByEnumPassed(t) also returns t.c["passed"] for t.sort = "name".
-\*  reporter_v2          SummaryReporterV2.print_summary reads summary_counts.hook_failed (no such attribute):
-\*                       AttributeError in end() for every model.  Behind it: `status.name in status_counts` is never
-\*                       true for the enum-keyed StatusCounts, so no part is printed (HasName).  Repair both; then
-\*                       SpecV2 does not crash and HasName / PartsFrom read enum-keyed tables as well.
-\*  collector_error_only SummaryCollector.on_scenario compares with Status.error, so hook_error scenarios are in
-\*                       no list.  Repair: status.is_error(); then ColScenario uses ErrorClass like V1Scenario.
-KF_C14_v1B_passed_zero(v) == v[5] = "v1B_passed_zero" /\ v[2] = "V1" /\ v[3] = "v1B" /\ v[1] \in {"C14.count", "C14.sum", "C14.formats"}
-KF_C14_reporter_v2_crash(v) == v[5] = "reporter_v2" /\ v[2] = "V2" /\ v[1] = "C14.no_crash"
-KF_C14_collector_error_only(v) == v[5] = "collector_error_only" /\ v[2] = "collector" /\ v[1] = "C14.listed"
-Known(v) == KF_C14_v1B_passed_zero(v) \/ KF_C14_reporter_v2_crash(v) \/ KF_C14_collector_error_only(v)
-ClauseId(v) == IF v[5] = "none" THEN v[1] ELSE v[1] \o "/" \o v[5]
+\* No exception: the defects this check found in the shipped summary (format v1B printed 0 passed; the collector's
+\* errored list left hook_error scenarios out) are repaired in /repo and (S) above follows the repaired code, so a
+\* return of either is a plain violation.  SummaryReporterV2 as it is: AttributeError in end() for every model and no
+\* part printed from the enum-keyed tables (SpecV2 / HasName) -- modelled, compared, not judged.
 =============================================================================
